@@ -58,6 +58,10 @@ func propConfigs() map[string]*PropConfig {
 		Explain: "pattern C: the real newEnv, NewEnv, newEnv4Func, freeEnv, FreeEnv, freeEnv4Func, MarkUsedByClosure and Var.Address are executed from arbitrary valid pool states; the goroutine identity (assembly) is a model returning a harness variable"})
 	add(&PropConfig{ID: "C28", Prefix: "VH_C28_", StrBytes: 24, Thorough: func(n string) bool { return strings.Contains(n, "_T_") }, Sets: []HarnessSet{hfiles("go/typeutil", "typeutil/c28.go")},
 		Explain: "pattern A/C on concrete type shapes with symbolic attributes: the real typeutil.Identical/identical, Hasher.Hash/hashFor/hashTuple/hashString and Map.Set/At/Delete/Len run on types built with the real go/types-fork constructors (executed from source)"})
+	add(&PropConfig{ID: "C05", Prefix: "VH_C05_", Sets: []HarnessSet{hfiles("fast", fastLib, "fast/c19.go", "fast/c06.go", "fast/c13.go", "fast/c05_switch_gen.go", "fast/c05.go")},
+		Redirect: map[string]string{"github.com/cosmos72/gomacro/gls.GoID": "vhModelGoID", fp + "Comp).Expr": "vhModelExpr", fp + "Comp).Block": "vhModelBlock", fp + "Comp).Stmt": "vhModelStmt",
+			fp + "Comp).pushEnvIfLocalBinds": "vhModelPushEnv", fp + "Comp).popEnvIfLocalBinds": "vhModelPopEnv"},
+		Explain: "the real switchGotoMap / switchGotoSlice (per integer kind, symbolic case constants and tag value), Comp.If and Comp.For are executed; sub-expressions and sub-statements are replaced by models that emit marker statements, and the emitted code is run by the real executor"})
 	xrp := "(*github.com/cosmos72/gomacro/xreflect.xtype)."
 	add(&PropConfig{ID: "C34", Prefix: "VH_C34_", Sets: []HarnessSet{hfiles("xreflect", "xreflect/lib_xreflect.go", "xreflect/c34_gen.go")},
 		Redirect: map[string]string{xrp + "NumMethod": "vhModelNumMethod", xrp + "Method": "vhModelMethod", xrp + "GetMethods": "vhModelGetMethods"},
